@@ -18,7 +18,10 @@ CONSTANTS Authors,      \* set of client ids that edit
           Nest,         \* allow nested arrays / maps as values
           MaxDel,       \* total number of delete / remove operations
           Dups,         \* observer may receive an update twice
-          Merge         \* observer may receive several updates merged into one (merge_updates)
+          Merge,        \* observer may receive several updates merged into one (merge_updates)
+          Script        \* <<>> = free author phase; otherwise the sequence of local operations to perform (see MC_YataScript)
+
+NoScript == <<>>
 
 VARIABLES E, XD, S, upd, got, known, ops, dels, phase, hist
 vars == <<E, XD, S, upd, got, known, ops, dels, phase, hist>>
@@ -95,17 +98,19 @@ LocalIns(r, cn, i, k) ==
      /\ dels' = dels
      /\ hist' = Append(hist, [a |-> "ins", r |-> r, p |-> PathOf(R, cn, 4), i |-> i, n |-> 1, k |-> k])
 
-LocalDel(r, cn, i) ==
+LocalDelN(r, cn, i, n) ==
   LET R  == S[r]
       c  == ContKey(cn, "")
       v  == Visible(E, R, c)
-      x  == v[i + 1]
-      dd == DeadClosure(E, Units(R.lst), {x}) \ R.dead
+      xs == {v[j] : j \in (i + 1)..(i + n)}
+      dd == DeadClosure(E, Units(R.lst), xs) \ R.dead
       R2 == ApplyAlg(E, R, {}, dd)
-  IN /\ E' = E /\ XD' = XD \cup {x}
+  IN /\ i + n <= Len(v)
+     /\ E' = E /\ XD' = XD \cup xs
      /\ Emit(r, R2, {}, dd)
      /\ dels' = dels + 1
-     /\ hist' = Append(hist, [a |-> "del", r |-> r, p |-> PathOf(R, cn, 4), i |-> i, n |-> 1])
+     /\ hist' = Append(hist, [a |-> "del", r |-> r, p |-> PathOf(R, cn, 4), i |-> i, n |-> n])
+LocalDel(r, cn, i) == LocalDelN(r, cn, i, 1)
 
 MapSet(r, cn, key, k) ==
   LET R   == S[r]
@@ -170,8 +175,26 @@ KeysOf(cn) == IF cn[2] = None THEN MapKeys ELSE {"k1"}
 Kinds == IF Nest THEN {"u", "A", "M"} ELSE {"u"}
 KindsAt(cn) == IF cn[2] = None /\ cn[1] # "t" THEN Kinds ELSE {"u"}
 
+(* scripted author phase: the next local operation is the one the script names (root containers only);
+   exchanges among authors and the whole observer phase stay free *)
+ScriptStep ==
+  LET st == Script[ops + 1] cn == <<st.c, None>> IN
+    CASE st.a = "ins" -> /\ st.i <= Len(Visible(E, S[st.r], ContKey(cn, ""))) /\ LocalIns(st.r, cn, st.i, st.k)
+      [] st.a = "del" -> LocalDelN(st.r, cn, st.i, st.n)
+      [] st.a = "set" -> MapSet(st.r, cn, st.key, st.k)
+      [] st.a = "rem" -> MapRem(st.r, cn, st.key)
+      [] st.a = "nins" ->   \* insert into the nested array that is the i-th visible element of root st.c
+           LET v == Visible(E, S[st.r], ContKey(cn, "")) IN
+             /\ st.i < Len(v) /\ IsType(v[st.i + 1], "array") /\ LocalIns(st.r, <<"", v[st.i + 1]>>, 0, "u")
+      [] st.a = "nset" ->   \* write key k3 of the nested map that is the i-th visible element of root st.c
+           LET v == Visible(E, S[st.r], ContKey(cn, "")) IN
+             /\ st.i < Len(v) /\ IsType(v[st.i + 1], "map") /\ MapSet(st.r, <<"", v[st.i + 1]>>, "k3", "u")
+      [] OTHER -> FALSE
+
 Next ==
-  \/ /\ phase = "A" /\ ops < MaxOps
+  \/ /\ phase = "A" /\ ops < MaxOps /\ Script # <<>> /\ ops < Len(Script)
+     /\ ScriptStep
+  \/ /\ phase = "A" /\ ops < MaxOps /\ Script = <<>>
      /\ \E r \in Authors :
           \/ \E cn \in SeqConts(r) : \E i \in 0..Len(Visible(E, S[r], ContKey(cn, ""))) :
                \E k \in KindsAt(cn) : LocalIns(r, cn, i, k)
